@@ -408,6 +408,85 @@ def job_love_callsite(L):
     return {'results': results, 'encoded': loader.ENCODED, 'label': 'love callsite'}
 
 
+# ------------------------------------------------------------------------------------------------ public API: quick_tidal_dissipation / quick_dual_body_tidal_dissipation (call sites)
+def _quick_configs():
+    core = ['host_mass', 'target_radius', 'target_mass', 'target_gravity', 'target_density', 'target_moi', 'eccentricity']
+    cfgs = []
+    for rheo, extra in (('cpl', ['fixed_k2', 'fixed_q', 'tidal_scale']), ('ctl', ['fixed_k2', 'fixed_q']), ('ctl', ['fixed_k2', 'fixed_q', 'fixed_dt']), ('maxwell', ['viscosity', 'shear_modulus', 'tidal_scale']),
+                        ('andrade', ['viscosity', 'shear_modulus'])):
+        for orb in (['orbital_frequency'], ['orbital_period']):
+            for spin in (['spin_frequency'], ['spin_period'], []):
+                for obl in (True, False):
+                    for (L, N) in ((2, 2), (3, 4)):
+                        if (L, N) == (3, 4) and (rheo in ('ctl', 'andrade') or spin == ['spin_period']):
+                            continue
+                        if L > 2 and rheo in ('cpl', 'ctl'):
+                            pass
+                        cfgs.append({'given': core + extra + orb + spin + (['obliquity'] if obl else []), 'rheology': rheo, 'max_tidal_order_l': L, 'eccentricity_truncation_lvl': N, 'use_obliquity': obl})
+    pairs = ['radii', 'masses', 'gravities', 'densities', 'mois']
+    for rheo, extra in (('maxwell', ['viscosities', 'shear_moduli']), ('cpl', ['fixed_k2s', 'fixed_qs']), ('maxwell', ['viscosities', 'shear_moduli', 'tidal_scales'])):
+        for spin in (['spin_frequencies'], []):
+            for obl in (True, False):
+                cfgs.append({'dual': True, 'given_pairs': pairs + extra + spin + (['obliquities'] if obl else []), 'rheology': rheo, 'max_tidal_order_l': 2, 'eccentricity_truncation_lvl': 2,
+                             'use_obliquity': obl})
+    return cfgs
+
+
+def job_quick_api(chunk, nchunks):
+    """provenance execution of the REAL quick_tides functions (replay/c10_tracer.py): every returned quantity must have the provenance term of the documented pipeline
+    (valid for all input values and all interpretations of the leaf functions: z3, uninterpreted functions + real arithmetic)"""
+    import subprocess, tempfile, json as _json
+    import c13
+    cfgs = _quick_configs()[chunk::nchunks]
+    with tempfile.TemporaryDirectory(prefix='verif_c10_') as td:
+        env = dict(os.environ)
+        env['PYTHONPATH'] = REPO
+        p = subprocess.run([replay.VENV_PY, os.path.join(solve.VERIF, 'replay', 'c10_tracer.py')], input=_json.dumps({'configs': cfgs}), capture_output=True, text=True, cwd=td, env=env, timeout=3000)
+    if '@@RESULT@@' not in p.stdout:
+        raise RuntimeError('c10 tracer failed: %s' % p.stderr[-1500:])
+    out = _json.loads(p.stdout.split('@@RESULT@@')[-1])
+    results, agg, uncovered = [], {}, {}
+    for rec in out:
+        c = rec['config']
+        tag = ('dual ' if c.get('dual') else 'single ') + '%s l<=%d N=%d given=%s' % (c['rheology'], c['max_tidal_order_l'], c['eccentricity_truncation_lvl'],
+                                                                                     ','.join(x for x in c.get('given', c.get('given_pairs', [])) if x not in ('host_mass', 'target_radius', 'target_mass', 'target_gravity', 'target_density', 'target_moi', 'radii', 'masses', 'gravities', 'densities', 'mois')))
+        if 'error' in rec:
+            results.append(discharge(Obligation('quick_tides %s: executes' % tag, z3.BoolVal(False), [], with_axioms=False, with_dens=False,
+                                                replay=lambda md, rec=rec: (True, 'real function raised: %s\n%s' % (rec['error'], rec.get('trace', ''))), key='quickapi:raises:%s' % rec['error'][:50])))
+            continue
+        tr = c13.Tr()
+        for q in sorted(set(rec['got']) | set(rec['want'])):
+            a, b = rec['got'].get(q), rec['want'].get(q)
+            if a is None or b is None:
+                results.append(discharge(Obligation('quick_tides %s: result key %s present on both sides' % (tag, q), z3.BoolVal(False), [], with_axioms=False, with_dens=False,
+                                                    replay=lambda md, q=q, a=a: (True, 'key %s %s' % (q, 'missing from the returned dictionary' if a is None else 'not part of the documented result')), key='quickapi:key:%s' % q)))
+                continue
+            goal = tr.t(a['term']) == tr.t(b['term'])
+
+            def rp(md, a=a, b=b, q=q, tag=tag):
+                d = c13._differs(a.get('value'), b.get('value'))
+                if d is None:
+                    return False, 'no concrete value to compare'
+                return d, 'real quick_tides (%s): %s = %r ; documented pipeline on the same inputs = %r' % (tag, q, a.get('value'), b.get('value'))
+            r = discharge(Obligation('quick_tides %s: %s has the provenance term of the documented pipeline' % (tag, q), goal, [], with_axioms=False, with_dens=False, replay=rp,
+                                     key='quickapi:%s:%s' % ('dual' if c.get('dual') else 'single', q.split('[')[0]), timeout_ms=20000))
+            if r['verdict'] == 'sat' and r.get('replay_ok') is False:
+                uncovered['%s: terms differ under the abstraction, values agree' % q] = uncovered.get('%s: terms differ under the abstraction, values agree' % q, 0) + 1
+                continue
+            if r['verdict'] == 'unsat':
+                agg.setdefault(q, [0, 0.0])
+                agg[q][0] += 1
+                agg[q][1] += r['solver_s']
+            else:
+                results.append(r)
+    for q, (cnt, ts) in sorted(agg.items()):
+        results.append({'name': 'quick_tides (chunk %d/%d, %d configurations): %s has the provenance term of the documented pipeline' % (chunk + 1, nchunks, cnt, q), 'key': 'quickapi:ok:%s' % q, 'verdict': 'unsat',
+                        'solver_s': round(ts, 3), 'info': {'queries': cnt}})
+    loader.ENCODED.append({'file': 'TidalPy/toolbox/quick_tides.py', 'function': 'quick_tidal_dissipation, quick_dual_body_tidal_dissipation (real functions under the provenance tracer)',
+                           'sha256_16': solve.sha_of(open(os.path.join(REPO, 'TidalPy/toolbox/quick_tides.py')).read())})
+    return {'results': results, 'encoded': loader.ENCODED, 'notes': ['quick API chunk %d: %d configurations' % (chunk, len(cfgs))] + ['NOT COVERED: %s x%d' % kv for kv in uncovered.items()], 'label': 'quick api %d' % chunk}
+
+
 def main():
     jobs = []
     if TIER == 'thorough':
@@ -424,6 +503,8 @@ def main():
     for (L, N, ob) in ([(2, 4, True), (3, 4, False)] if TIER != 'thorough' else [(2, 4, True), (2, 20, True), (3, 6, True), (4, 6, False), (7, 4, False)]):
         jobs.append((job_grouping, {'L': L, 'N': N, 'use_obliquity': ob}))
     jobs.append((job_arrays, {'L': 2, 'N': 4}))
+    for ch in range(4):
+        jobs.append((job_quick_api, {'chunk': ch, 'nchunks': 4}))
     jobs.append((job_love_callsite, {'L': 7 if TIER == 'thorough' else 4}))
     meta = {
         'explanation': 'calculate_terms and collapse_modes (and calc_tidal_susceptibility, the love1d helpers, get_universal_coeffs, the mode_calc_helper lookups) are executed from the current source. '
